@@ -452,6 +452,9 @@ func readDnsMsgFromBufio(reader *bufio.Reader, timeout time.Duration, conn net.C
 		if err := conn.SetReadDeadline(time.Now().Add(timeout)); err != nil {
 			return nil, 0, err
 		}
+		// The detection deadline must not leak into the relay phase when this
+		// turns out not to be DNS and the connection is handed to normal TCP handling.
+		defer func() { _ = conn.SetReadDeadline(time.Time{}) }()
 	}
 
 	// Peek 2-byte length prefix first (don't consume)
